@@ -323,8 +323,102 @@ func After(d time.Duration) <-chan time.Time {
 	w := &waiter{at: clockNs + int64(d), ch: make(chan time.Time, 1)}
 	waiters = append(waiters, w)
 	fireWaiters()
+	if !stallWatch {
+		stallWatch = true
+		go watchStall()
+	}
 	mu.Unlock()
 	return w.ch
+}
+
+// Timer stands in for *time.Timer in rewritten fan2go files (time.NewTimer -> verifhook.NewTimer): in virtual time its
+// channel fires when the virtual clock has advanced by d, like After.
+type Timer struct {
+	C    <-chan time.Time
+	real *time.Timer
+	w    *waiter
+}
+
+func NewTimer(d time.Duration) *Timer {
+	mu.Lock()
+	on := clockOn
+	mu.Unlock()
+	if !on {
+		rt := time.NewTimer(d)
+		return &Timer{C: rt.C, real: rt}
+	}
+	ch := After(d)
+	mu.Lock()
+	defer mu.Unlock()
+	t := &Timer{C: ch}
+	for _, w := range waiters {
+		if (<-chan time.Time)(w.ch) == ch {
+			t.w = w
+		}
+	}
+	return t
+}
+
+// Stop prevents the timer from firing; reports whether it was still pending.
+func (t *Timer) Stop() bool {
+	if t.real != nil {
+		return t.real.Stop()
+	}
+	mu.Lock()
+	defer mu.Unlock()
+	for i, w := range waiters {
+		if w == t.w {
+			waiters = append(waiters[:i], waiters[i+1:]...)
+			return true
+		}
+	}
+	return false
+}
+
+var stallWatch bool
+
+// watchStall: virtual time only moves when some goroutine sleeps. When timers are pending and NOBODY has moved the clock
+// for a while (25-50 ms of real time: everybody is blocked, e.g. all wait on their timers), time passes: the clock jumps
+// to the earliest pending timer. Without this a wait written as `select { case <-ctx.Done(): case <-time.After(d): }`
+// instead of `time.Sleep(d)` would never end.
+func watchStall() {
+	last := int64(-1)
+	for {
+		time.Sleep(25 * time.Millisecond)
+		mu.Lock()
+		if len(waiters) == 0 {
+			stallWatch = false
+			mu.Unlock()
+			return
+		}
+		if !clockOn {
+			// the harness went back to real time with timers still pending: let them go
+			for _, w := range waiters {
+				select {
+				case w.ch <- time.Now():
+				default:
+				}
+			}
+			waiters = nil
+			stallWatch = false
+			mu.Unlock()
+			return
+		}
+		if clockNs == last {
+			min := waiters[0].at
+			for _, w := range waiters {
+				if w.at < min {
+					min = w.at
+				}
+			}
+			if min > clockNs {
+				clockNs = min
+			}
+			fireWaiters()
+		}
+		last = clockNs
+		mu.Unlock()
+	}
 }
 
 // Advance moves the virtual clock forward by d and fires the timers that are due (what a Sleep of some goroutine does,
